@@ -221,6 +221,16 @@ def lib_soup(rng):
         decls.append("(begin %s)" % " ".join(body[half:]))
         libs["l%d" % i] = "(define-library (l%d) %s)" % (i, " ".join(decls))
         exports[i] = ext
+    # an EFFECT-ONLY library: it exports nothing (an empty export declaration, or none at all) and, when loaded, calls a counter of
+    # l0; several importers name it - it is still loaded once
+    fx = None
+    if "inc0" in exports[0] and rng.random() < 0.5:
+        fx = "(define-library (fx) (import (scheme base) (only (l0) inc0)) %s(begin (inc0) (inc0)))" % rng.choice(["(export) ", ""])
+        extra = {}
+        for i in range(1, n):
+            if rng.random() < 0.6:
+                libs["l%d" % i] = libs["l%d" % i].replace("(import (scheme base)", "(import (scheme base) (fx)", 1)
+        libs["fx"] = fx
     # the program
     picked = [i for i in range(n) if rng.random() < 0.7] or [n - 1]
     picked += [rng.choice(picked) for _ in range(rng.choice([0, 0, 1, 2]))]       # a library may be imported through several sets
@@ -240,6 +250,10 @@ def lib_soup(rng):
         for v, e in names:
             cur_names[v] = (i, e)
             visible[v] = (e, exports[i][e])
+    if fx is not None and rng.random() < 0.7:
+        cur.insert(rng.randrange(len(cur) + 1), "(fx)")
+        if rng.random() < 0.3:
+            cur.append("(fx)")
     decls.append(cur)
     decls = [d for d in decls if d]
     forms = ["(import (scheme base) %s)" % " ".join(decls[0])] + ["(import %s)" % " ".join(d) for d in decls[1:]]
